@@ -12,7 +12,8 @@
 (*                          weights in units of 1e-12                          *)
 (*   Samples obj k lo hi allin   k samples from obj: min, max, all in table?   *)
 (*   Drbg seed n digest refeq first_is_siphash int63ok    generator output     *)
-(*   Range fn a b k lo hi panicked   csrand helper fn called k times           *)
+(*   Range fn a b k lo hi panicked scripted   csrand helper fn called k times  *)
+(*        (scripted: with boundary-valued entropy instead of the system's)     *)
 EXTENDS Integers, Sequences, FiniteSets, TLC, Json
 CONSTANTS Scale
 VARIABLES seenT, seenW, seenD, cur, l
@@ -62,9 +63,9 @@ TRange == /\ Is("Range") /\ l' = l + 1
           /\ LET e == Trace[l] IN
                CASE e.fn = "IntRange" -> /\ e.panicked = (e.b < e.a)
                                          /\ (~e.panicked => (e.lo >= e.a /\ e.hi <= e.b))
-                                         /\ ((~e.panicked /\ e.k >= 200 * (e.b - e.a + 1)) => (e.lo = e.a /\ e.hi = e.b))
+                                         /\ ((~e.panicked /\ ~e.scripted /\ e.k >= 200 * (e.b - e.a + 1)) => (e.lo = e.a /\ e.hi = e.b))
                  [] e.fn = "Intn"     -> /\ ~e.panicked /\ e.lo >= 0 /\ e.hi < e.a
-                                         /\ (e.k >= 200 * e.a => (e.lo = 0 /\ e.hi = e.a - 1))
+                                         /\ ((~e.scripted /\ e.k >= 200 * e.a) => (e.lo = 0 /\ e.hi = e.a - 1))
                  [] e.fn = "Float64"  -> ~e.panicked /\ e.lo >= 0 /\ e.hi < Scale        \* logged as floor(x * Scale)
           /\ UNCHANGED <<seenT, seenW, seenD, cur>>
 TNext == TReset \/ TVose \/ TBuild \/ TSamples \/ TDrbg \/ TRange
